@@ -1,8 +1,8 @@
 //go:build verif
 
 // Contracts for the verifier in /verif (comment-only file; compiled only with -tags verif).
-// Randomized fingerprints: property C09 (generateRandomizedSpec and its helpers) and the shuffle
-// part of C03 (ShuffleChromeTLSExtensions).
+// Randomized fingerprints: property C09 (generateRandomizedSpec, its swap closures and its helpers; one clause
+// of C02 rides along: alpn_nonempty) and the shuffle part of C03 (ShuffleChromeTLSExtensions).
 
 package tls
 
@@ -47,8 +47,9 @@ package tls
 
 // removeRandomCiphers deletes in place, each element but the first with some probability.  The first
 // suite is never removed (first), nothing new appears (kept: whatever holds for all input elements holds for
-// all output elements, ciphProp being an arbitrary uninterpreted predicate; the instance C09 needs is "a
-// list without RC4 stays without RC4"), and the relative order is kept (sorted, see ciphClass above).
+// all output elements, ciphProp being an arbitrary uninterpreted predicate), the instance C09 needs is stated on
+// its own because a caller cannot instantiate an uninterpreted predicate (norc4: a list without RC4 stays without
+// RC4), and the relative order is kept (sorted, see ciphClass above).
 // Every coin is an unconstrained boolean here: the verified contract of (*prng).FlipWeightedCoin
 // (verif_contracts_leaf.go) is deliberately not applied (opaque + assume-pure), because its clause about
 // weight <= 0.0 drags the float64 product/quotient maxRemovalProbability*float64(i)/floatLen into every
@@ -67,11 +68,13 @@ package tls
 //@   ensures first: n >= 1 ==> len(ret) >= 1 && ret[0] == old(s[0])
 //@   ensures kept: old(forall k in 0..n: ciphProp(s[k])) ==> forall j in 0..len(ret): ciphProp(ret[j])
 //@   ensures sorted: old(classSorted(s, n)) ==> classSorted(ret, len(ret))
+//@   ensures norc4: old(forall k in 0..n: !isRC4(s[k])) ==> forall j in 0..len(ret): !isRC4(ret[j])
 //@   loop 0 invariant arr(s) == arr(s0) && off(s) == off(s0) && cap(s) == cap(s0) && len(s) == sliceLen
 //@   loop 0 invariant 1 <= i && i <= sliceLen && sliceLen <= n
 //@   loop 0 invariant s[0] == old(s0[0])
 //@   loop 0 invariant old(forall k in 0..n: ciphProp(s0[k])) ==> forall j in 0..sliceLen: ciphProp(s[j])
 //@   loop 0 invariant old(classSorted(s0, n)) ==> classSorted(s, sliceLen)
+//@   loop 0 invariant old(forall k in 0..n: !isRC4(s0[k])) ==> forall j in 0..sliceLen: !isRC4(s[j])
 
 // ---------------------------------------------------------------------------------------------
 // C09: the order of the TLS <= 1.2 suites: sort.Interface over (isObsolete, randomTag, suite).
@@ -128,54 +131,207 @@ package tls
 //@   ensures ok: ret1 == nil ==> ret0 != nil && fresh(ret0) && ret0.rand != nil && ret0.randomStream != nil
 //@   ensures err: ret1 != nil ==> ret0 == nil
 
-// generateRandomizedSpec itself (u_parrots.go:2949) has NO contract: the generator rejects it,
-//   UNSUPPORTED tls.generateRandomizedSpec: u_parrots.go:3117: append of a non-constant number of struct elements
-// (`ks.KeyShares = append([]KeyShare{{Group: X25519MLKEM768}}, ks.KeyShares...)`: appendStructsImpl only models
-// a source of constant length 0..9; smallest reproducer: func f(a []KeyShare) []KeyShare { return
-// append([]KeyShare{{Group: 1}}, a...) }).  Independently of that, four calls havoc the whole heap in the
-// middle of the function: shuffledCiphers (no frame, see below) and the three r.rand.Shuffle(n, swap) calls
-// (math/rand.(*Rand).Shuffle has no contract: what it modifies is whatever its function-valued argument
-// modifies, which a contract cannot say).  The clauses that were prepared (as anchors in front of the last
-// Shuffle, on x = p.Extensions, n = len(x)):
-//   alps_needs_alpn:  (exists a: istype(x[a], *ApplicationSettingsExtension)) ==> exists b: istype(x[b], *ALPNExtension)
-//   tls13_padding:    p.TLSVersMax == VersionTLS13 ==> exists a: istype(x[a], *UtlsPaddingExtension)
-//   tls13_versions:   p.TLSVersMax == VersionTLS13 ==> exists a: istype(x[a], *SupportedVersionsExtension) &&
-//                     versions of x[a] == [TLSVersMax .. TLSVersMin] (makeSupportedVersions.ordered, verif_contracts_vers.go)
-//   tls13_pss (in front of the second Shuffle): p.TLSVersMax == VersionTLS13 ==> PSSWithSHA256 among sigAndHashAlgos
-//   tls13_norc4:      removeRC4Ciphers.norc4 and removeRandomCiphers.kept above
-//   DEFECT_C09_keyshare_subset: forall a, b: isKS(x[a]) && isSC(x[b]) ==> forall k: ksOf(x[a])[k].Group is among scOf(x[b])
-//   DEFECT_C09_pq_needs_keyshare: forall b, c: isSC(x[b]) && scOf(x[b])[c] == X25519MLKEM768 ==> some key share has that group
-// The two DEFECT clauses are violated by the code (confirmed on the real code, see the report):
-// supported_groups gets X25519MLKEM768 from the coin CurveIDs_Append_X25519 (first flip), the key shares get it
-// from the coin KeyShare_Append_RandomGroups (second flip); the two coins are independent.
+// generateRandomizedSpec (u_parrots.go:2965).  The extension list is built from locals (&sni, ..., &curves, then
+// conditionally &alpn, &padding, &status, &sct, &reneg, &ems, and for TLS 1.3 &ks, &pskExchangeModes,
+// &supportedVersionsExt, alps) and then shuffled, so every clause about the returned spec is stated
+// position-independently (quantified over the positions of ret0.Extensions, with istype).  They are carried through
+// the last r.rand.Shuffle by the contract of its swap closure generateRandomizedSpec$3 (inv_* clauses, see below and
+// "math/rand Shuffle with a swap closure" in CONTRACTS.md).
+//
+// Clauses of C09 on the returned spec (ret1 == nil; on an error the partially built spec is returned and nothing is
+// claimed):
+//   keyshare_listed  every group of every key_share extension is listed in every supported_groups extension
+//   pq_has_share     a supported_groups list with X25519MLKEM768 implies TLS 1.3 (pqTLS13), TLS 1.3 implies a key_share
+//                    extension (ksPresent), and every key_share extension then has a share for that group (pqShare)
+//   alps_needs_alpn  an application_settings extension only together with an ALPN extension
+//   tls13_padding    TLS 1.3 implies a padding extension
+//   tls13_versions   TLS 1.3 implies a supported_versions extension (svPresent); every supported_versions extension
+//                    lists exactly TLSVersMax, TLSVersMax-1, ..., TLSVersMin (svMatch; from makeSupportedVersions.ordered)
+//   tls13_norc4      TLS 1.3 implies no RC4 suite (removeRC4Ciphers.norc4, removeRandomCiphers.norc4)
+//   tls13_only       key_share, psk_key_exchange_modes, supported_versions and application_settings only with TLS 1.3
+//   versions         (TLSVersMin, TLSVersMax) is (1.0, 1.2), (1.0, 1.3) or (1.2, 1.3)
+//   alpn_nonempty    (C02) every ALPN extension carries at least one protocol
+//   err_client       (error path) an id.Client other than the three randomized ids gives an error
+//   w0_tls13         (weights) a weight <= 0 for TLSVersMax_Set_VersionTLS13 gives a TLS 1.0..1.2 spec, hence with
+//                    tls13_only none of the TLS 1.3 extensions (from FlipWeightedCoin.never)
+// Proved only in front of a shuffle (anchor), not on the returned spec:
+//   tls13_pss        TLS 1.3 implies PSSWithSHA256 among sigAndHashAlgos, in front of the second Shuffle.  The swap
+//                    closure $2 captures only the cell of sigAndHashAlgos, so an invariant of it cannot mention
+//                    p.TLSVersMax, and "PSS is in the list" alone does not hold on every path.
+// Not stated: the suite order (TLS 1.3 first, then TLS 1.2-only, then older) needs shuffledCiphers to return the
+// table sorted by Less, which is not proved (sort.Sort, see shuffledCiphers); the other weights (each optional
+// extension goes through the last Shuffle, and an invariant of closure $3 can only mention p, not id.Weights); weights
+// of 1 (FlipWeightedCoin.always is internal to its contract: it speaks about the 63-bit draw).
+// No modifies clause: nothing with a contract calls this function, and a frame would add one obligation per heap
+// component (about 320) for id.Seed / id.Weights only.
+//
+// How it is proved.  In front of the last Shuffle the list is described slot by slot: fin_slots (finOK: what an
+// element of each type looks like), fin_sc (element 4 is THE supported_groups extension, its list is curveIDs and
+// curvesGood), fin_w / fin_t (positions of the witnesses: ALPN at 5, padding at 5 or 6, key_share and
+// supported_versions among the last four).  The establishment obligations Shuffle.inv_*.established#0 follow from
+// these by instantiation.  The slot facts themselves are carried along the appends by the anchors s13/b13/w13 (in
+// front of the extended_master_secret coin), s14/b14/w14 (TLS 1.3 block), k_pre/k_good (key shares: groups listed,
+// hybrid share iff listed) and sv_good.  Shapes that matter for the solvers (found the hard way):
+//   * all facts about the supported_groups list go through the object at p.Extensions[4] (val(e) == val(x[4])), not
+//     through the local curveIDs: the two access paths give differently shaped index terms (ix(off, c) versus c for
+//     a slice with the literal offset 0) and e-matching does not connect them;
+//   * existentials over an appended list need a ground witness term in the final array: witAlpn/witPad/witTail name
+//     the positions (they are stable: appends only extend the list);
+//   * ksGood states "listed" with its own existential (witness found once, at k_good) instead of the three possible
+//     group values, so that keyshare_listed is one instantiation.
+// The return after shuffledCiphers (u_parrots.go:3008) is dead in reality (shuffledCiphers.noerr); the clause is not
+// used here, so the return stays covered and the postconditions are checked on it as well.
+//
+// Assumptions (listed in the evidence):
+//   * opaque tls.NewPRNGSeed + assume-pure NewPRNGSeed: NewPRNGSeed (verif_contracts_roller.go) has deliberately no
+//     modifies clause, so applying its contract would havoc the heap (id.Client, the cipher table) on the path with
+//     id.Seed == nil.  It allocates a seed and fills it with crypto/rand.Read: nothing visible to this function is
+//     written.  Its result is then unconstrained, so the fact NewPRNGSeed.ok (verified there) is re-assumed: seed_ok.
+//   * assume-pure defaultCipherSuites: slices.Clone + slices.DeleteFunc on the clone (generic std functions without
+//     contract); the result is overwritten before it is used (p.CipherSuites = removeRandomCiphers(...)).
+
+//@ spec isKS(e) = istype(e, *KeyShareExtension)
+//@ spec isSC(e) = istype(e, *SupportedCurvesExtension)
+//@ spec isSV(e) = istype(e, *SupportedVersionsExtension)
+//@ spec isALPN(e) = istype(e, *ALPNExtension)
+//@ spec isALPS(e) = istype(e, *ApplicationSettingsExtension)
+//@ spec isPad(e) = istype(e, *UtlsPaddingExtension)
+//@ spec isPSKModes(e) = istype(e, *PSKKeyExchangeModesExtension)
+//@ spec ksOf(e) = e.(*KeyShareExtension).KeyShares
+//@ spec scOf(e) = e.(*SupportedCurvesExtension).Curves
+//@ spec svOf(e) = e.(*SupportedVersionsExtension).Versions
+//@ spec alpnOf(e) = e.(*ALPNExtension).AlpnProtocols
+//@ spec hasCurve(cs, g) = exists c in 0..len(cs): cs[c] == g
+//@ spec hasShare(ks, g) = exists k in 0..len(ks): ks[k].Group == g
+
+// the clauses of C09 (x: an extension list)
+//@ spec ksListed(x) = forall a in 0..len(x): forall b in 0..len(x): isKS(x[a]) && isSC(x[b]) ==> forall k in 0..len(ksOf(x[a])): hasCurve(scOf(x[b]), ksOf(x[a])[k].Group)
+//@ spec pqShare(x) = forall a in 0..len(x): forall b in 0..len(x): isKS(x[a]) && isSC(x[b]) && hasCurve(scOf(x[b]), X25519MLKEM768) ==> hasShare(ksOf(x[a]), X25519MLKEM768)
+//@ spec pqTLS13(x, vmax) = forall b in 0..len(x): isSC(x[b]) && hasCurve(scOf(x[b]), X25519MLKEM768) ==> vmax == VersionTLS13
+//@ spec ksPresent(x, vmax) = vmax == VersionTLS13 ==> exists a in 0..len(x): isKS(x[a])
+//@ spec alpsAlpn(x) = (exists a in 0..len(x): isALPS(x[a])) ==> exists b in 0..len(x): isALPN(x[b])
+//@ spec padPresent(x, vmax) = vmax == VersionTLS13 ==> exists a in 0..len(x): isPad(x[a])
+//@ spec svPresent(x, vmax) = vmax == VersionTLS13 ==> exists a in 0..len(x): isSV(x[a])
+//@ spec svGood(V, vmin, vmax) = len(V) == vmax - vmin + 1 && forall i in 0..len(V): V[i] == vmax - i
+//@ spec svMatch(x, vmin, vmax) = forall a in 0..len(x): isSV(x[a]) ==> svGood(svOf(x[a]), vmin, vmax)
+//@ spec alpnNonEmpty(x) = forall a in 0..len(x): isALPN(x[a]) ==> len(alpnOf(x[a])) >= 1
+//@ spec tls13Only(x, vmax) = forall a in 0..len(x): isKS(x[a]) || isSV(x[a]) || isALPS(x[a]) || isPSKModes(x[a]) ==> vmax == VersionTLS13
+//@ spec norc4If13(s, vmax) = vmax == VersionTLS13 ==> forall j in 0..len(s): !isRC4(s[j])
+
+// stepping stones
+// curvesGood: the shape of the supported_groups list [X25519MLKEM768]? [X25519]? P256 P384 [P521]?
+//@ spec curvesGood(cs, vmax) = 2 <= len(cs) && len(cs) <= 5 && (cs[len(cs)-2] == CurveP256 || (len(cs) >= 3 && cs[len(cs)-3] == CurveP256)) && (vmax == VersionTLS13 ==> (len(cs) >= 3 && cs[len(cs)-3] == X25519) || (len(cs) >= 4 && cs[len(cs)-4] == X25519)) && (cs[0] == X25519MLKEM768 ==> vmax == VersionTLS13) && (forall j in 1..len(cs): cs[j] != X25519MLKEM768)
+// ksGood: every share's group is listed in cs, and a listed hybrid group has its share (the first one)
+//@ spec ksGood(K, cs) = 1 <= len(K) && (forall i in 0..len(K): hasCurve(cs, K[i].Group)) && (forall c in 0..len(cs): cs[c] == X25519MLKEM768 ==> K[0].Group == X25519MLKEM768)
+// an element of the list before the TLS 1.3 block (sc: the element at position 4)
+//@ spec slotOK(e, sc) = !isKS(e) && !isSV(e) && !isALPS(e) && !isPSKModes(e) && (isSC(e) ==> val(e) == val(sc)) && (isALPN(e) ==> len(alpnOf(e)) >= 1)
+//@ spec baseOK(x) = forall a in 0..len(x): slotOK(x[a], x[4])
+// an element of the complete list
+//@ spec finSlot(e, sc, alpn, vmin, vmax) = (isSC(e) ==> val(e) == val(sc)) && (isALPN(e) ==> len(alpnOf(e)) >= 1) && (isKS(e) ==> vmax == VersionTLS13 && ksGood(ksOf(e), scOf(sc))) && (isSV(e) ==> svGood(svOf(e), vmin, vmax)) && (isALPS(e) ==> alpn && vmax == VersionTLS13) && (isPSKModes(e) ==> vmax == VersionTLS13)
+//@ spec finOK(x, alpn, vmin, vmax) = forall a in 0..len(x): finSlot(x[a], x[4], alpn, vmin, vmax)
+// position 4 holds the supported_groups extension built from the local curveIDs
+//@ spec scAt(x, cs) = len(x) > 4 && isSC(x[4]) && scOf(x[4]) == cs
+//@ spec scGood(x, cs, vmax) = scAt(x, cs) && curvesGood(scOf(x[4]), vmax)
+// witnesses by position
+//@ spec witAlpn(x, alpn) = alpn ==> len(x) > 5 && isALPN(x[5])
+//@ spec witPad(x, alpn, vmax) = vmax == VersionTLS13 ==> (alpn ==> len(x) > 6 && isPad(x[6])) && (!alpn ==> len(x) > 5 && isPad(x[5]))
+//@ spec witTail(x, vmax) = vmax == VersionTLS13 ==> len(x) >= 8 && ((isKS(x[len(x)-3]) && isSV(x[len(x)-1])) || (isKS(x[len(x)-4]) && isSV(x[len(x)-2])))
+
+//@ func generateRandomizedSpec
+//@   property C09 C02
+//@   requires id != nil
+//@   requires table: tableOK()
+//@   opaque tls.NewPRNGSeed
+//@   assume-pure NewPRNGSeed defaultCipherSuites
+//@   at after call NewPRNGSeed#0: assume seed_ok: res1 == nil ==> res0 != nil
+//@   use removeRC4Ciphers: header norc4
+//@   use removeRandomCiphers: header norc4
+//@   use shuffledCiphers: len
+//@   use makeSupportedVersions: len ordered
+//@   use FlipWeightedCoin: never
+//@   use Intn: range
+//@   ensures err_client: old(id.Client) != "Randomized-ALPN" && old(id.Client) != "Randomized-NoALPN" && old(id.Client) != "Randomized" ==> ret1 != nil
+//@   ensures keyshare_listed: ret1 == nil ==> ksListed(ret0.Extensions)
+//@   ensures pq_has_share: ret1 == nil ==> pqShare(ret0.Extensions) && pqTLS13(ret0.Extensions, ret0.TLSVersMax) && ksPresent(ret0.Extensions, ret0.TLSVersMax)
+//@   ensures alps_needs_alpn: ret1 == nil ==> alpsAlpn(ret0.Extensions)
+//@   ensures tls13_padding: ret1 == nil ==> padPresent(ret0.Extensions, ret0.TLSVersMax)
+//@   ensures tls13_versions: ret1 == nil ==> svPresent(ret0.Extensions, ret0.TLSVersMax) && svMatch(ret0.Extensions, ret0.TLSVersMin, ret0.TLSVersMax)
+//@   ensures tls13_norc4: ret1 == nil ==> norc4If13(ret0.CipherSuites, ret0.TLSVersMax)
+//@   ensures tls13_only: ret1 == nil ==> tls13Only(ret0.Extensions, ret0.TLSVersMax)
+//@   ensures versions: ret1 == nil ==> (ret0.TLSVersMax == VersionTLS13 && (ret0.TLSVersMin == VersionTLS10 || ret0.TLSVersMin == VersionTLS12)) || (ret0.TLSVersMax == VersionTLS12 && ret0.TLSVersMin == VersionTLS10)
+//@   ensures alpn_nonempty: ret1 == nil ==> alpnNonEmpty(ret0.Extensions)
+//@   ensures w0_tls13: old(id.Weights) != nil && old(id.Weights.TLSVersMax_Set_VersionTLS13) <= 0.0 && ret1 == nil ==> ret0.TLSVersMax == VersionTLS12 && ret0.TLSVersMin == VersionTLS10
+//@   at after call removeRandomCiphers#0: assert n0: norc4If13(res, p.TLSVersMax)
+//@   at before call Shuffle#1: assert tls13_pss: p.TLSVersMax == VersionTLS13 ==> exists k in 0..len(sigAndHashAlgos): sigAndHashAlgos[k] == PSSWithSHA256
+//@   at before call FlipWeightedCoin#9: assert n3: norc4If13(p.CipherSuites, p.TLSVersMax)
+//@   at before call FlipWeightedCoin#9: assert c_good: curvesGood(curveIDs, p.TLSVersMax)
+//@   at before call FlipWeightedCoin#13: assert s13: scAt(p.Extensions, curveIDs)
+//@   at before call FlipWeightedCoin#13: assert b13: baseOK(p.Extensions)
+//@   at before call FlipWeightedCoin#13: assert w13: witAlpn(p.Extensions, WithALPN) && witPad(p.Extensions, WithALPN, p.TLSVersMax)
+//@   at before call FlipWeightedCoin#14: assert s14: scGood(p.Extensions, curveIDs, p.TLSVersMax)
+//@   at before call FlipWeightedCoin#14: assert b14: baseOK(p.Extensions)
+//@   at before call FlipWeightedCoin#14: assert w14: witAlpn(p.Extensions, WithALPN) && witPad(p.Extensions, WithALPN, p.TLSVersMax)
+//@   at before call makeSupportedVersions#0: assert k_good: ksGood(ks.KeyShares, scOf(p.Extensions[4]))
+//@   at after call makeSupportedVersions#0: assert sv_good: svGood(res, p.TLSVersMin, p.TLSVersMax)
+//@   at before call Shuffle#2: assert fin_sc: scGood(p.Extensions, curveIDs, p.TLSVersMax)
+//@   at before call Shuffle#2: assert fin_w: witAlpn(p.Extensions, WithALPN) && witPad(p.Extensions, WithALPN, p.TLSVersMax)
+//@   at before call Shuffle#2: assert fin_t: witTail(p.Extensions, p.TLSVersMax)
+//@   at before call Shuffle#2: assert fin_slots: finOK(p.Extensions, WithALPN, p.TLSVersMin, p.TLSVersMax)
+//@   loop 0 invariant -1 <= $rangeindex && $rangeindex < len(curveIDs)
+//@   loop 0 invariant forall j in 0..$k: curveIDs[j] != X25519MLKEM768
+//@   loop 0 invariant k_pre: 1 <= len(ks.KeyShares) && len(ks.KeyShares) <= 2 && (ks.KeyShares[0].Group == X25519 || ks.KeyShares[0].Group == CurveP256) && (len(ks.KeyShares) > 1 ==> ks.KeyShares[1].Group == CurveP256)
+//@   note call ordinals (block order of `govc ssa tls.generateRandomizedSpec`): FlipWeightedCoin#9 padding coin (curveIDs and the ALPN append are done), #13 extended_master_secret coin, #14 FirstKeyShare_Set_CurveP256 (first call of the TLS 1.3 block), Shuffle#1 sigAndHashAlgos, Shuffle#2 p.Extensions; loop 0 is `for _, curveID := range curveIDs`
+//@   note shuffledCiphers.noerr is deliberately not used (`use shuffledCiphers: len`): with it the return at u_parrots.go:3008 is dead code and its vacuity probe cover:return3 fails; without it the postconditions are also checked on that return
 
 // ---------------------------------------------------------------------------------------------
-// The three swap closures of generateRandomizedSpec (arguments of (*rand.Rand).Shuffle): each swaps
-// two elements of the captured slice and touches nothing else.
+// The three swap closures of generateRandomizedSpec (arguments of (*rand.Rand).Shuffle): each swaps two elements of
+// the captured slice and touches nothing else.  `modifies` names the whole slice (it bounds every call of a
+// Shuffle).  The inv_* pairs of closure $3 (same formula as requires and ensures, over the captured p only, no
+// parameter, no old()) are the invariant of the native Shuffle model: the closure's own proof post:inv_* is the
+// induction step (one swap keeps the clause), the caller proves Shuffle.inv_*.established#0 and assumes the clause
+// after the Shuffle.  $1 and $2 need no invariant: nothing about the order or the contents of tls13ciphers /
+// sigAndHashAlgos is claimed after their Shuffle.
 
 //@ func generateRandomizedSpec$1
 //@   property C09
 //@   requires cell: tls13ciphers != nil
 //@   requires 0 <= i && i < len(*tls13ciphers) && 0 <= j && j < len(*tls13ciphers)
-//@   modifies (*tls13ciphers)[i], (*tls13ciphers)[j]
+//@   modifies (*tls13ciphers)[0..len(*tls13ciphers)]
 //@   ensures swap: (*tls13ciphers)[i] == old((*tls13ciphers)[j]) && (*tls13ciphers)[j] == old((*tls13ciphers)[i])
+//@   ensures others: forall k in 0..len(*tls13ciphers): k != i && k != j ==> (*tls13ciphers)[k] == old((*tls13ciphers)[k])
 //@   ensures header: *tls13ciphers == old(*tls13ciphers)
 
 //@ func generateRandomizedSpec$2
 //@   property C09
 //@   requires cell: sigAndHashAlgos != nil
 //@   requires 0 <= i && i < len(*sigAndHashAlgos) && 0 <= j && j < len(*sigAndHashAlgos)
-//@   modifies (*sigAndHashAlgos)[i], (*sigAndHashAlgos)[j]
+//@   modifies (*sigAndHashAlgos)[0..len(*sigAndHashAlgos)]
 //@   ensures swap: (*sigAndHashAlgos)[i] == old((*sigAndHashAlgos)[j]) && (*sigAndHashAlgos)[j] == old((*sigAndHashAlgos)[i])
+//@   ensures others: forall k in 0..len(*sigAndHashAlgos): k != i && k != j ==> (*sigAndHashAlgos)[k] == old((*sigAndHashAlgos)[k])
 //@   ensures header: *sigAndHashAlgos == old(*sigAndHashAlgos)
 
 //@ func generateRandomizedSpec$3
-//@   property C09
+//@   property C09 C02
 //@   requires cell: p != nil
 //@   requires 0 <= i && i < len(p.Extensions) && 0 <= j && j < len(p.Extensions)
-//@   modifies p.Extensions[i], p.Extensions[j]
+//@   requires inv_keyshare_listed: ksListed(p.Extensions)
+//@   requires inv_pq_has_share: pqShare(p.Extensions) && pqTLS13(p.Extensions, p.TLSVersMax) && ksPresent(p.Extensions, p.TLSVersMax)
+//@   requires inv_alps_needs_alpn: alpsAlpn(p.Extensions)
+//@   requires inv_tls13_padding: padPresent(p.Extensions, p.TLSVersMax)
+//@   requires inv_tls13_versions: svPresent(p.Extensions, p.TLSVersMax) && svMatch(p.Extensions, p.TLSVersMin, p.TLSVersMax)
+//@   requires inv_alpn_nonempty: alpnNonEmpty(p.Extensions)
+//@   requires inv_tls13_only: tls13Only(p.Extensions, p.TLSVersMax)
+//@   modifies p.Extensions[0..len(p.Extensions)]
 //@   ensures swap: p.Extensions[i] == old(p.Extensions[j]) && p.Extensions[j] == old(p.Extensions[i])
+//@   ensures others: forall k in 0..len(p.Extensions): k != i && k != j ==> p.Extensions[k] == old(p.Extensions[k])
 //@   ensures header: p.Extensions == old(p.Extensions)
+//@   ensures inv_keyshare_listed: ksListed(p.Extensions)
+//@   ensures inv_pq_has_share: pqShare(p.Extensions) && pqTLS13(p.Extensions, p.TLSVersMax) && ksPresent(p.Extensions, p.TLSVersMax)
+//@   ensures inv_alps_needs_alpn: alpsAlpn(p.Extensions)
+//@   ensures inv_tls13_padding: padPresent(p.Extensions, p.TLSVersMax)
+//@   ensures inv_tls13_versions: svPresent(p.Extensions, p.TLSVersMax) && svMatch(p.Extensions, p.TLSVersMin, p.TLSVersMax)
+//@   ensures inv_alpn_nonempty: alpnNonEmpty(p.Extensions)
+//@   ensures inv_tls13_only: tls13Only(p.Extensions, p.TLSVersMax)
 
 // ---------------------------------------------------------------------------------------------
 // C03 (shuffle part): ShuffleChromeTLSExtensions.
@@ -217,20 +373,26 @@ package tls
 //@   ensures swap_or_keep: ((*exts)[i] == old((*exts)[i]) && (*exts)[j] == old((*exts)[j])) || ((*exts)[i] == old((*exts)[j]) && (*exts)[j] == old((*exts)[i]))
 
 // ---------------------------------------------------------------------------------------------
-// C09: shuffledCiphers: one id per entry of the cipherSuites table, never an error.
-// NOT proved (see the report): that the result is a permutation of the table's ids with the suiteTLS12
-// suites first.  sort.Sort rearranges a slice of structs: (1) its frame cannot be written (no modifies
-// target for elements of a slice of structs), so the call havocs the heap and this function cannot have
-// a modifies clause either; (2) a trusted contract "ordered by Less / same elements" relative to old(...)
-// was tried: its clauses reach the slice through the boxed header of the interface argument, the element
-// terms then contain ix(off, j) with a non-literal offset, and no solver connects them with the elp(arr, j)
-// terms of GetCiphers' contract (300 s, z3/z3-new timeout, cvc5 unknown).
+// C09: shuffledCiphers: one id per entry of the cipherSuites table, never an error, and nothing that existed before
+// the call is written except the position of the random source (frame: modifies ghost(randpos, r.rand)).
+// NOT proved: that the result is a permutation of the table's ids with the suiteTLS12 suites first.  sort.Sort
+// rearranges a slice of structs: (1) its frame cannot be written (no modifies target for elements of a slice of
+// structs), so without help the call havocs the heap; (2) a trusted contract "ordered by Less / same elements"
+// relative to old(...) was tried: its clauses reach the slice through the boxed header of the interface argument,
+// the element terms then contain ix(off, j) with a non-literal offset, and no solver connects them with the
+// elp(arr, j) terms of GetCiphers' contract (300 s, z3/z3-new timeout, cvc5 unknown).
+// ASSUMPTION `assume-pure Sort`: the call sort.Sort(ciphers) is treated as leaving the heap as it is.  What is true:
+// sort.Sort writes exactly the elements of its argument, here the slice `ciphers` allocated by this very call.  The
+// contract therefore claims nothing about the VALUES of the result (only noerr, len, fresh and the frame), and every
+// clause it does claim is independent of the contents of `ciphers`: it holds as well when Sort permutes them.
 //@ spec tableOK() = forall k in 0..len(cipherSuites): cipherSuites[k] != nil
 //@ func shuffledCiphers
 //@   property C09
 //@   let n = len(cipherSuites)
 //@   requires r != nil && r.rand != nil
 //@   requires table: tableOK()
+//@   assume-pure Sort
+//@   modifies ghost(randpos, r.rand)
 //@   ensures noerr: ret1 == nil
 //@   ensures len: len(ret0) == n && fresh(ret0)
 //@   loop 0 invariant -1 <= $rangeindex && $rangeindex < n
